@@ -6,6 +6,7 @@ import (
 	"path/filepath"
 	"sort"
 	"strings"
+	"sync"
 
 	"golang.org/x/tools/go/packages"
 	"golang.org/x/tools/go/ssa"
@@ -22,6 +23,26 @@ type Program struct {
 	RepoDir  string
 	PkgDir   string
 	LoadSecs float64
+
+	jsonOnce sync.Once
+	jsonFn   *ssa.Function
+}
+
+// jsonAppendString finds the string instantiation of encoding/json.appendString.
+func (p *Program) jsonAppendString() *ssa.Function {
+	p.jsonOnce.Do(func() {
+		for fn := range ssautil.AllFunctions(p.Prog) {
+			o := fn.Origin()
+			if o == nil || o.Name() != "appendString" || o.Pkg == nil || o.Pkg.Pkg.Path() != "encoding/json" {
+				continue
+			}
+			if ta := fn.TypeArgs(); len(ta) == 1 && isString(ta[0]) {
+				p.jsonFn = fn
+				return
+			}
+		}
+	})
+	return p.jsonFn
 }
 
 // Load type-checks repoDir/pkgRel (with every dependency from source) and
